@@ -254,7 +254,19 @@ def gen_spec(rng, ptype, for_schema=False):
         else:
             kw['objects'] = list(objs)
         s['objs'] = objs
-        if ptype == 'Selector':
+        if ptype == 'Selector' and rng.random() < 0.2:
+            # values are not checked against the objects: whatever is assigned is added to them (also when the option is given
+            # as None, the default shown in the signature)
+            kw['check_on_set'] = rng.choice([False, None])
+            fresh_n = [0]
+
+            def g_unchecked(r):
+                if r.random() < 0.4:
+                    fresh_n[0] += 1
+                    return f'unlisted{fresh_n[0]}'
+                return r.choice(objs)
+            s['gen'] = g_unchecked
+        elif ptype == 'Selector':
             s['gen'] = lambda r: r.choice(objs)
         else:
             s['gen'] = lambda r: [o for o in objs if r.random() < 0.5]
